@@ -240,6 +240,22 @@ def _has_loop_jump(stmts, kinds):
     return rec(stmts)
 
 
+def _dead_store(st, loaded):
+    """`name = <display of names, attributes, constants and lambdas>` where the name is never read (what is left of a
+    table once the loop over it is unrolled): evaluating it has no effect"""
+    if not (isinstance(st, ast.Assign) and len(st.targets) == 1 and isinstance(st.targets[0], ast.Name) and st.targets[0].id not in loaded):
+        return False
+
+    def inert(e):
+        if isinstance(e, (ast.Tuple, ast.List)):
+            return all(inert(x) for x in e.elts)
+        if isinstance(e, ast.Lambda):
+            return True
+        return isinstance(e, (ast.Name, ast.Constant)) or (isinstance(e, ast.Attribute) and isinstance(e.value, ast.Name))
+
+    return isinstance(st.value, (ast.Tuple, ast.List)) and inert(st.value)
+
+
 class Unroller(ast.NodeTransformer):
     def __init__(self, tree):
         self.mod_consts, self.mod_funcs, self.classes = {}, {}, {}
@@ -613,11 +629,15 @@ class Unroller(ast.NodeTransformer):
             self._gen_pre.append(ast.copy_location(ast.Assign(targets=[ast.Name(id=nm, ctx=ast.Store())], value=v, type_comment=None), call))
             bound[p_] = ast.Name(id=nm, ctx=ast.Load())
 
+        loaded = {n.id for n in ast.walk(g) if isinstance(n, ast.Name) and isinstance(n.ctx, ast.Load)}
+
         def ok(stmts, in_loop):
             for st in stmts:
                 if isinstance(st, ast.Expr) and isinstance(st.value, ast.Yield):
                     if st.value.value is None:
                         return False
+                    continue
+                if _dead_store(st, loaded):
                     continue
                 if isinstance(st, (ast.Assign, ast.AugAssign, ast.AnnAssign, ast.Expr, ast.Pass)):
                     if any(isinstance(n, (ast.Yield, ast.YieldFrom, ast.Lambda, ast.NamedExpr)) for n in ast.walk(st)):
@@ -649,6 +669,7 @@ class Unroller(ast.NodeTransformer):
         stores = _stores(node.body)
         counter = [0]
         g_stores = {n.id for n in ast.walk(g) if isinstance(n, ast.Name) and isinstance(n.ctx, (ast.Store, ast.Del))}
+        g_loaded = {n.id for n in ast.walk(g) if isinstance(n, ast.Name) and isinstance(n.ctx, ast.Load)}
         if g_stores & set(bound):
             return None  # a parameter is re-bound inside the generator
         caller_names = set(self.fn[-1][2]) | set(self.fn[-1][1]) if self.fn else set()
@@ -666,6 +687,8 @@ class Unroller(ast.NodeTransformer):
             out = []
             for st in stmts:
                 if isinstance(st, ast.Expr) and isinstance(st.value, ast.Constant):
+                    continue
+                if _dead_store(st, g_loaded):
                     continue
                 if isinstance(st, ast.Expr) and isinstance(st.value, ast.Yield):
                     val = _Ren().visit(copy.deepcopy(st.value.value))
@@ -1829,8 +1852,32 @@ def _inline_local_procedures(tree):
     return count[0]
 
 
+def _yield_from_loops(tree):
+    """a statement `yield from E` whose value is not used hands out the items of E one by one: `for y in E: yield y`
+    (`yield from map(f, E)` with a named f: `for y in E: yield f(y)`)"""
+    count = [0]
+
+    class _T(ast.NodeTransformer):
+        def visit_Expr(self, st):
+            v = st.value
+            if not isinstance(v, ast.YieldFrom):
+                return st
+            count[0] += 1
+            name = "_yf%d" % count[0]
+            it, item = v.value, ast.Name(id=name, ctx=ast.Load())
+            if isinstance(it, ast.Call) and isinstance(it.func, ast.Name) and it.func.id == "map" and len(it.args) == 2 and not it.keywords and _simple(it.args[0]) and not isinstance(it.args[0], ast.Constant):
+                item = ast.Call(func=it.args[0], args=[item], keywords=[])
+                it = it.args[1]
+            loop = ast.For(target=ast.Name(id=name, ctx=ast.Store()), iter=it, body=[ast.Expr(value=ast.Yield(value=item))], orelse=[], type_comment=None)
+            return ast.fix_missing_locations(ast.copy_location(loop, st))
+
+    _T().visit(tree)
+    return count[0]
+
+
 def normalise(tree):
     """unroll table-driven loops and fold constant getattr / setattr; returns (tree, number of loops unrolled)"""
+    _yield_from_loops(tree)
     _flatten_private_bases(tree)
     _attrgetters(tree)
     _closure_factories(tree)
